@@ -1060,6 +1060,66 @@ func quotaCase(r *prng.R, id string) proto.Case {
 	return proto.Case{ID: id, Ops: ops}
 }
 
+// ---------------------------------------------------------------- family E2: quota trees with repeated ids
+
+type ilSpec struct{ id, parent, url string }
+
+var dupShapes = map[string][]ilSpec{
+	// an id declared again BELOW itself (seed C05-s8), also twice in a row (the third is refused: same id twice under one node)
+	"below-itself":            {{"c1", "q1", "verif.test/x"}, {"c1", "c1", "verif.test/y"}},
+	"below-itself-twice":      {{"c1", "q1", "verif.test/x"}, {"c1", "c1", "verif.test/y"}, {"c1", "c1", "verif.test/z"}},
+	"below-itself-then-child": {{"c1", "q1", "verif.test/x"}, {"c1", "c1", "verif.test/y"}, {"d1", "c1", "verif.test/z"}},
+	// the same id at depth 1 and depth 3 of one branch
+	"depth-1-and-3": {{"c1", "q1", "verif.test/x"}, {"d1", "c1", "verif.test/x/1"}, {"c1", "d1", "verif.test/y"}},
+	// the same id on sibling branches (nobody uses it as parent: the loader's choices stay deterministic)
+	"sibling-branches": {{"a1", "q1", "verif.test/x"}, {"b1", "q1", "verif.test/y"}, {"x1", "a1", "verif.test/x/1"}, {"x1", "b1", "verif.test/y/1"}},
+	// the quota's own id again below it
+	"quota-id-below": {{"q1", "q1", "verif.test/x"}, {"c1", "q1", "verif.test/y"}},
+	// a limit that is its own parent / a parent declared later: silently dropped
+	"own-parent":            {{"c1", "c1", "verif.test/x"}},
+	"parent-declared-later": {{"c2", "c1", "verif.test/y"}, {"c1", "q1", "verif.test/x"}},
+	"own-parent-after-real": {{"c1", "q1", "verif.test/x"}, {"c2", "c2", "verif.test/y"}, {"c1", "c1", "verif.test/z"}},
+	// the same id twice under one node: refused
+	"twice-under-one-node": {{"c1", "q1", "verif.test/x"}, {"c1", "q1", "verif.test/y"}},
+	// the same id with the same filter: the generated processors collide: refused
+	"same-id-same-filter":      {{"c1", "q1", "verif.test/x"}, {"c1", "c1", "verif.test/x"}},
+	"same-id-inherited-filter": {{"c1", "q1", "-"}, {"c1", "c1", "-"}},
+	"no-duplicates":            {{"c1", "q1", "verif.test/x"}, {"c2", "c1", "verif.test/y"}, {"c3", "c2", "-"}},
+}
+
+func dupQuotaCase(r *prng.R, id string, shape string) proto.Case {
+	ops := append([]string{}, vocabLines...)
+	strat := func() string {
+		switch r.Intn(4) {
+		case 0:
+			return "s=conc maxreq=100"
+		case 1:
+			return "s=hdr"
+		}
+		return fmt.Sprintf("s=fixed max=%d int=1 unit=%s", r.Range(50, 100), prng.Pick(r, []string{"minute", "hour"}))
+	}
+	ops = append(ops, "quota q1 url=verif.test/* "+strat())
+	ids := map[string]bool{"q1": true, "nope": true}
+	for _, il := range dupShapes[shape] {
+		ops = append(ops, fmt.Sprintf("ilimit %s parent=%s url=%s %s", il.id, il.parent, il.url, strat()))
+		ids[il.id] = true
+	}
+	var names []string
+	for n := range ids {
+		names = append(names, n)
+	}
+	sort.Strings(names)
+	f := baseFlow("f1")
+	f[1] = "proc f1 A PA quota_id=" + prng.Pick(r, names)
+	f[2] = "proc f1 B PA other=1 quota_id=" + prng.Pick(r, names)
+	ops = append(ops, f...)
+	ops = append(ops, "load", "txn dir=req o=f1/A/req=n:a,f1/B/req=n:a")
+	for i := 0; i < 2; i++ {
+		ops = append(ops, rawTxn(r, false))
+	}
+	return proto.Case{ID: id, Ops: ops}
+}
+
 // ---------------------------------------------------------------- family F: transaction content
 
 var fuzzURLs = []string{"verif.test/x", "verif.test//x", "verif.test/x/", "verif.test/", "verif.test", "", "/", "//", "verif.test/x//y",
@@ -1187,6 +1247,20 @@ func gen(r *prng.R, f proto.Flags, emit func(proto.Case)) {
 	}
 	for i := 0; i < nE; i++ {
 		emit(quotaCase(r.Fork(), next("e")))
+	}
+	var shapeNames []string
+	for n := range dupShapes {
+		shapeNames = append(shapeNames, n)
+	}
+	sort.Strings(shapeNames)
+	nDup := 8 * mul
+	if thorough {
+		nDup = 60 * mul
+	}
+	for rep := 0; rep < nDup; rep++ {
+		for _, sh := range shapeNames {
+			emit(dupQuotaCase(r.Fork(), next("q-"+sh+"-"), sh))
+		}
 	}
 	for i := 0; i < nF; i++ {
 		emit(fuzzCase(r.Fork(), next("f")))
